@@ -10,7 +10,7 @@ import Blue.Model.Utf8
     * the log as `KeyValueStore::open` replays it (`log_to_builder`: drain the `LogIterator`,
       sort by key ascending / timestamp descending, feed an `SstBuilder`; `log_to_setsum`);
     * the manifest as `ManifestIterator` hands it out item by item — edits *and* errors, with the
-      code's two kinds of error (poisoning: the iterator ends; the non-ASCII check: it does not) —
+      errors that poison it (as found the non-ASCII check did not: `iterateAsFound`) —
       and `Manifest::open`'s `read_mani` on top of it.
 
     `ManifestIterator` is modelled here once more, next to `Blue.Mani.readEdits`, because two
@@ -113,7 +113,8 @@ inductive Item where
   | edit (e : Edit)
   /-- `corruption` (bad CRC digits, CRC mismatch, short line, …): poisons the iterator -/
   | corrupt
-  /-- `corruption` from the non-ASCII check: the iterator is *not* poisoned and goes on -/
+  /-- `corruption` from the non-ASCII check: poisons, as repaired by
+      fixes/mani-nonascii-poisons.diff (as found it did not: `iterateAsFound`) -/
   | notAscii
   /-- `BufRead::lines` failed (the line is not UTF-8): `io-error`, poisons -/
   | ioError
@@ -131,7 +132,8 @@ def lineOf (raw : List Nat) (terminated : Bool) : List Nat := if terminated then
 
 variable (crc : List Nat → Nat)
 
-/-- `ManifestIterator`: every item a caller sees until `None` -/
+/-- `ManifestIterator`: every item a caller sees until `None`.  Every error poisons the iterator,
+    the non-ASCII check included (as repaired by fixes/mani-nonascii-poisons.diff). -/
 def iterate : Nat → List Nat → Edit → List Item
   | 0, _, _ => []
   | _ + 1, [], _ => []
@@ -142,7 +144,7 @@ def iterate : Nat → List Nat → Edit → List Item
     if !Blue.Utf8.valid raw then [.ioError]
     else
       let line := lineOf raw rest.isSome
-      if line.any (fun b => b ≥ 128) then .notAscii :: iterate f rest' Edit.empty
+      if line.any (fun b => b ≥ 128) then [.notAscii]
       else
         match parseLine crc line with
         | .corrupt => [.corrupt]
@@ -151,7 +153,31 @@ def iterate : Nat → List Nat → Edit → List Item
         | .add s => if s.getLast? = some 13 then [.disallowed] else iterate f rest' { cur with add := insertStr s cur.add }
         | .info k s => if s.getLast? = some 13 then [.disallowed] else iterate f rest' { cur with info := setInfo k s cur.info }
 
+/-- the reader as found (finding: the non-ASCII error did not poison): after that error the
+    iterator went on, with an empty current edit -/
+def iterateAsFound : Nat → List Nat → Edit → List Item
+  | 0, _, _ => []
+  | _ + 1, [], _ => []
+  | f + 1, bs, cur =>
+    let (raw, rest) := splitLine bs
+    let rest' := rest.getD []
+    -- the bytes `read_line` appended: the line and its newline
+    if !Blue.Utf8.valid raw then [.ioError]
+    else
+      let line := lineOf raw rest.isSome
+      if line.any (fun b => b ≥ 128) then .notAscii :: iterateAsFound f rest' Edit.empty
+      else
+        match parseLine crc line with
+        | .corrupt => [.corrupt]
+        | .sep => .edit cur :: iterateAsFound f rest' Edit.empty
+        | .rm s => if s.getLast? = some 13 then [.disallowed] else iterateAsFound f rest' { cur with rm := insertStr s cur.rm }
+        | .add s => if s.getLast? = some 13 then [.disallowed] else iterateAsFound f rest' { cur with add := insertStr s cur.add }
+        | .info k s => if s.getLast? = some 13 then [.disallowed] else iterateAsFound f rest' { cur with info := setInfo k s cur.info }
+
 def items (bytes : List Nat) : List Item := iterate crc (bytes.length + 2) bytes Edit.empty
+
+/-- the reader as found (finding: the non-ASCII error did not poison), drained -/
+def itemsAsFound (bytes : List Nat) : List Item := iterateAsFound crc (bytes.length + 2) bytes Edit.empty
 
 def editsBeforeError : List Item → List Edit × Option Item
   | [] => ([], none)
